@@ -6,6 +6,7 @@ from sfmon import canon
 from sfmon.canon import cs, veq
 from sfmon.gen import frames as F
 from sfmon.gen import keys as K
+from sfmon.gen import labels as L
 from sfmon.gen import values as V
 
 PROPERTY = 'C08'
@@ -104,6 +105,13 @@ def generate(ctx):
     rng = ctx.rng
     for _ in range(ctx.n(26000, 400000)):
         r = rng.random()
+        if r < 0.03:
+            # relabel by whole levels of a hierarchy (depth 3 mostly: the level tree then has inner nodes below the dropped level)
+            depth = rng.choice([3, 3, 3, 2])
+            labels = L.tree_labels(depth, rng.randint(2, 9), rng)
+            yield {'kind': 'level_relabel', 'iface': 'level_relabel', 'labels': labels, 'depth': depth, 'container': rng.choice(['series', 'frame', 'frame_columns']),
+                   'op': rng.choice(['drop_outer', 'drop_outer', 'drop_outer_2', 'drop_inner', 'add']), 'twice': rng.random() < 0.5}
+            continue
         if r < 0.72:
             spec = _tame(F.random_spec(rng, max_rows=5, max_cols=6, min_rows=1, min_cols=1, dtypes=_DTYPES, row_kinds=_ROWK, col_kinds=_COLK))
             lay = rng.choice(F.layouts(spec.dtypes))
@@ -163,6 +171,12 @@ def generate(ctx):
                 case['cols'] = picked if rng.random() < 0.8 else None  # None = whole frame
                 case['single'] = rng.random() < 0.25 and len(picked) == 1
                 case['dt'] = rng.choice(['float64', 'object', 'str', 'int64', 'bool', 'complex128', 'float32'])
+                if rng.random() < 0.35:
+                    # one call with a dtype per addressed column: a mapping by label, or one entry per column with None for "leave as is"
+                    case['form'] = rng.choice(['mapping', 'iterable'])
+                    case['cols'] = picked
+                    case['single'] = False
+                    case['dts'] = [rng.choice(['float64', 'float64', 'object', 'str', 'int64', 'bool', 'complex128', 'float32']) for _ in picked]
             elif iface == 'relabel':
                 case['axis'] = rng.choice(['index', 'columns', 'both'])
                 case['how'] = rng.choice(['func', 'dict', 'list'])
@@ -220,11 +234,106 @@ def check(case, ctx):
     ctx.tally('iface', f"{case['kind']}.{case['iface']}")
     if case['kind'] == 'frame':
         return _check_frame(case, ctx)
+    if case['kind'] == 'level_relabel':
+        return _check_level_relabel(case, ctx)
     ctx.__dict__['_c08_last'] = None
     _check_series(case, ctx)
     last = ctx.__dict__.get('_c08_last')
     if last is not None:
         _result_lookups(ctx, last[1], last[3])
+
+
+def _check_level_relabel(case, ctx):
+    """relabel_level_drop / relabel_level_add: the result carries the remaining (or extended) labels over the same values; the receiver
+    still holds what it held, and still finds every one of its labels at its position (also when the call was refused)."""
+    import static_frame as sf
+    labels, depth, op = [tuple(t) for t in case['labels']], case['depth'], case['op']
+    n = len(labels)
+    klass = {'t': 'level_relabel', 'op': op, 'depth': depth, 'container': case['container']}
+    ctx.evaluation(repr(case), n >= 2)
+    ih = sf.IndexHierarchy.from_labels(labels, depth_reference=depth)
+    vals = np.arange(n) * 10
+    if case['container'] == 'series':
+        c = sf.Series(vals, index=ih, name='s')
+    elif case['container'] == 'frame':
+        c = sf.Frame.from_items([('p', vals), ('q', vals + 1)], index=ih)
+    else:
+        c = sf.Frame(np.vstack([vals, vals + 1]), index=('p', 'q'), columns=ih)
+    axis = 'columns' if case['container'] == 'frame_columns' else 'index'
+    count = {'drop_outer': 1, 'drop_outer_2': 2, 'drop_inner': -1}.get(op)
+    if count is not None and abs(count) >= depth:
+        return
+    if op == 'add':
+        want = [('ADDED',) + t for t in labels]
+    elif count > 0:
+        want = [t[count:] for t in labels]
+    else:
+        want = [t[:count] for t in labels]
+    if op != 'add':
+        want = [t[0] if len(t) == 1 else t for t in want]
+        valid = len({cs(t) for t in want}) == n and (not isinstance(want[0], tuple) or K.is_tree(want))
+        for c_ in range(1, (count if count > 0 else 0) + 1):
+            if valid and depth - c_ >= 2:
+                # levels are dropped one at a time; the promoted level is the concatenation of the children of each dropped parent: a label
+                # held under two parents is refused as a duplicate rather than merged (same reading as C02's level_drop derivation)
+                parents = {}
+                for t in labels:
+                    parents.setdefault(cs(t[c_]), set()).add(cs(t[:c_]))
+                valid = all(len(v) == 1 for v in parents.values())
+    else:
+        valid = True
+    before = canon.snap(c)
+    ctx.tally('level_relabel', f'{op}:{"valid" if valid else "refused"}')
+    for _ in range(2 if case['twice'] else 1):
+        if case['container'] == 'series':
+            out, exc = _call(lambda: (c.relabel_level_add('ADDED') if op == 'add' else c.relabel_level_drop(count)))
+        else:
+            out, exc = _call(lambda: (c.relabel_level_add(**{axis: 'ADDED'}) if op == 'add' else c.relabel_level_drop(**{axis: count})))
+        if canon.snap(c) != before:
+            ctx.violation('receiver_changed', detail={'before': canon.brief(before, 500), 'after': canon.brief(canon.snap(c), 500)}, klass=klass)
+            return
+        src = getattr(c, axis)
+        for pos, lab in enumerate(labels):
+            try:
+                p = src.loc_to_iloc(lab)
+                cell = (c.loc[lab] if case['container'] == 'series' else (c.loc[lab, 'p'] if axis == 'index' else c.loc['p', lab]))
+            except Exception as e:
+                ctx.violation('receiver_label_lookup_raised', detail={'label': repr(lab), 'position': pos, 'exception': type(e).__name__, 'message': str(e)[:200]},
+                              klass=dict(klass, exception=type(e).__name__))
+                return
+            if not isinstance(p, (int, np.integer)) or int(p) != pos or int(cell) != pos * 10:
+                ctx.violation('receiver_label_found_elsewhere', detail={'label': repr(lab), 'position': pos, 'loc_to_iloc': repr(p), 'cell': repr(cell),
+                                                                        'labels': repr(labels)[:400]}, klass=klass)
+                return
+        if not valid:
+            if exc is None:
+                got = canon.index_labels(getattr(out, axis))
+                if len({cs(x) for x in got}) != len(got):
+                    ctx.violation('update_mismatch:labels_or_shape', detail={'duplicate_labels_accepted': repr(got)[:300]}, klass=klass)
+            return
+        if exc is not None:
+            ctx.violation('valid_update_raised', detail={'exception': type(exc).__name__, 'message': str(exc)[:300], 'labels': repr(labels)[:300]},
+                          klass=dict(klass, exception=type(exc).__name__))
+            return
+        res = getattr(out, axis)
+        got = [cs(x) for x in canon.index_labels(res)]
+        if not canon.seq_eq(got, [cs(x) for x in want], canon.leq):
+            ctx.violation('update_mismatch:labels_or_shape', detail={'expected': [cs(x) for x in want], 'got': got}, klass=klass)
+            return
+        if (out.values != c.values).any():
+            ctx.violation('update_mismatch:unaddressed_cell', detail={'got': repr(out.values.tolist())[:300]}, klass=klass)
+            return
+        for pos, lab in enumerate(want):
+            try:
+                p = res.loc_to_iloc(lab)
+            except Exception as e:
+                ctx.violation('result_label_lookup_raised', detail={'axis': axis, 'label': repr(lab), 'position': pos, 'exception': type(e).__name__},
+                              klass=dict(klass, axis_checked=axis))
+                return
+            if not isinstance(p, (int, np.integer)) or int(p) != pos:
+                ctx.violation('result_label_found_elsewhere', detail={'axis': axis, 'label': repr(lab), 'position': pos, 'loc_to_iloc': repr(p)},
+                              klass=dict(klass, axis_checked=axis))
+                return
 
 
 def _result_lookups(ctx, out, klass):
@@ -727,16 +836,27 @@ def _check_astype(case, ctx, f, before, klass):
     klass['dt'] = dt
     # reference per addressed column (NumPy casting of the isolated column)
     ref, ref_exc = {}, None
+    form = case.get('form', 'getitem')
+    per_col = dict(zip(cols, case['dts'])) if form != 'getitem' else {c: dt for c in target}
+    klass['form'] = form
+    if form != 'getitem':
+        klass['dt'] = 'per_column'
+    ctx.tally('astype_form', form)
     for c in target:
         try:
             import warnings
             with warnings.catch_warnings():
                 warnings.simplefilter('ignore')
-                ref[c] = _np_astype(spec.col_array(c), dt)
+                ref[c] = _np_astype(spec.col_array(c), per_col[c])
         except Exception as e:
             ref_exc = e
             break
-    if cols is None:
+    as_spec = lambda d: str if d == 'str' else d
+    if form == 'mapping':
+        out, exc = _call(lambda: f.astype({spec.cols[c]: as_spec(d) for c, d in per_col.items()}))
+    elif form == 'iterable':
+        out, exc = _call(lambda: f.astype([as_spec(per_col[c]) if c in per_col else None for c in range(nc)]))
+    elif cols is None:
         out, exc = _call(lambda: f.astype(str if dt == 'str' else dt))
     else:
         labs = [spec.cols[c] for c in cols]
